@@ -7,9 +7,9 @@ CONSTANTS NT,      \* torrents (each with one tier)
           CMIN,    \* client minimum announce interval (abstract units)
           BO,      \* back-off after an announce without reply (>= CMIN)
           IVALS,   \* interval / min-interval values of ok replies (0 = absent)
-          ASIS,    \* subset of {"gap","tier","cancel","stopmember"}: behaviour of the unchanged tree
+          ASIS,    \* subset of {"gap","tier","cancel","stopmember"}: behaviour of the unchanged tree (+ seeded faults)
           CIDS,    \* connection ids a UDP tracker may hand out (0 is a legal id)
-          ENV      \* enabled environment actions: subset of {"need","complete","flip","expire","stop"}
+          ENV      \* enabled environment actions: subset of {"need","complete","flip","expire","stop","dupconn"}
 
 IvFull  == {-1, 0, 1, 2, 2147483647}
 IvSmall == {0, 2}
@@ -49,6 +49,7 @@ MCNext ==
     \/ ("need" \in ENV /\ Calm /\ \E t \in T, v \in BOOLEAN : Need(t, v))
     \/ \E r \in rq : Answer(r) \/ ConnErr(r) \/ SideEnd(r)
     \/ \E k \in K : ConnStep(k)
+    \/ ("dupconn" \in ENV /\ \E k \in K : ConnReply(k) \/ DupConnReply(k))     \* connect reply arrives / is duplicated
     \/ \E r \in rq : Retransmit(r)
     \/ ("expire" \in ENV /\ Calm /\ \E k \in K : ConnExpire(k))
     \/ ("flip" \in ENV /\ Calm /\ \E k \in K : Flip(k))
